@@ -432,6 +432,25 @@ def check_c03(mt, sess):
                 return "orig" if t.origin == "orig" else ("pad" if t.origin == "pad" else "patch")
         return "?"
 
+    # alignment padding is transparent: an edge into a padding run counts
+    # as an edge to the first instruction after it
+    pad_next = {}
+    for sname in model.section_order:
+        pending = []
+        for u in model.sections[sname]:
+            for t in u.toks:
+                if not t.is_bytes():
+                    continue
+                if t.origin == "pad":
+                    pending.append(t)
+                else:
+                    for ptok in pending:
+                        if ptok.id in addr and t.id in addr:
+                            pad_next[addr[ptok.id]] = addr[t.id]
+                    pending = []
+    if pad_next:
+        for a in list(real):
+            real[a] = {(x[0], x[1], x[2], ("addr", pad_next[x[3][1]]) if x[3][0] == "addr" and x[3][1] in pad_next else x[3]) for x in real[a]}
     for a in sorted(set(exp) | set(real)):
         e = exp.get(a, set())
         r = real.get(a, set())
